@@ -2226,6 +2226,7 @@ def r153(ctx, repo):
            node=hn, label="section head", nontrivial=False)
 
     _unique_id_rule(ctx, repo)
+    _one_handle(ctx, repo)
     # reader and writer open the file with the same text encoding
     encs = {}
     for nm_, fn_ in (("save", save), ("_load", load)):
@@ -2507,6 +2508,92 @@ def _exec(stmts, env):
             raise _NoEval(short(s, 40))
 
 
+def _one_handle(ctx, repo):
+    """save(path, ret_fobj=True) opens the path in append mode and hands
+    the buffered handle out un-closed.  A caller that saves several
+    filters to one file keeps exactly one live handle: the handle returned
+    by one call is what the next call writes to (or it is closed before
+    the next call, or one handle opened by the caller is passed to all).
+    A second handle opened while the first is alive and un-flushed writes
+    *before* the first one's buffered text as soon as it exceeds the I/O
+    buffer (F15c)."""
+    fn = repo.func(POLY, "PolygonFilter.save_all")
+    body = inline_helpers(repo, POLY, fn)
+    calls = [c for c in find_calls(body, attr="save")
+             if not isinstance(c.func, ast.Name)]
+    if not calls:
+        raise AnalysisError("PolygonFilter.save_all: no call of save()")
+    bad = None
+    for c in calls:
+        ret = kwarg(c, "ret_fobj", 1)
+        if ret is None or (isinstance(ret, ast.Constant)
+                           and not ret.value):
+            continue        # save() closes what it opened
+        if not (isinstance(ret, ast.Constant) and ret.value is True):
+            raise AnalysisError("save_all: ret_fobj is not a literal")
+        loop = c
+        while loop is not None and not isinstance(
+                loop, (ast.For, ast.While, ast.ListComp, ast.GeneratorExp,
+                       ast.FunctionDef)):
+            loop = getattr(loop, "parent", None)
+        if not isinstance(loop, (ast.For, ast.While)):
+            if isinstance(loop, ast.FunctionDef) and len(calls) == 1:
+                continue    # a single save outside any loop
+            raise AnalysisError("save_all: shape of the saving loop not "
+                                "recognised")
+        dest = kwarg(c, "polyfile", 0)
+        st = c
+        while not isinstance(st, ast.stmt):
+            st = st.parent
+        target = txt(st.targets[0]) if isinstance(st, ast.Assign) \
+            and st.value is c and len(st.targets) == 1 else None
+        # (i) the handle is threaded through the calls
+        if target is not None and isinstance(dest, ast.Name) \
+                and dest.id == target:
+            continue
+        # (ii) one handle opened by the caller outside the loop
+        if isinstance(dest, ast.Name):
+            opened = [n for n in walk(body)
+                      if (isinstance(n, ast.withitem)
+                          and n.optional_vars is not None
+                          and txt(n.optional_vars) == dest.id
+                          and last_attr(n.context_expr) == "open")
+                      or (isinstance(n, ast.Assign)
+                          and txt(n.targets[0]) == dest.id
+                          and any(isinstance(x, ast.Call)
+                                  and last_attr(x) == "open"
+                                  for x in ast.walk(n.value)))]
+            inside = {id(x) for x in ast.walk(loop)}
+            rebound = [n for n in ast.walk(loop)
+                       if isinstance(n, ast.Name) and n.id == dest.id
+                       and isinstance(n.ctx, ast.Store)]
+            if opened and not any(id(o) in inside for o in opened) \
+                    and not rebound:
+                continue
+        # (iii) the returned handle is closed within the iteration
+        if target is not None:
+            blk = st.parent.body if st in getattr(st.parent, "body", []) \
+                else []
+            later = blk[blk.index(st) + 1:] if st in blk else []
+            if any(isinstance(x, ast.Expr) and isinstance(x.value, ast.Call)
+                   and txt(x.value.func) == f"{target}.close"
+                   for x in later):
+                continue
+        bad = c
+        break
+    ctx.ob("R15.3", bad is None,
+           "save_all keeps one live file handle: the handle returned by "
+           "save(…, ret_fobj=True) is what the next filter is written to"
+           if bad is None else
+           f"`{short(bad, 60)}` in a loop opens the destination again for "
+           "every filter while the handle returned for the previous filter "
+           "is still open and un-flushed: a filter longer than the I/O "
+           "buffer reaches the file before its predecessor (sections and "
+           "points of different filters are interleaved in the .poly file)",
+           node=bad if bad is not None else fn,
+           label="one live handle in save_all")
+
+
 def run(ctx):
     repo = ctx.repo
     ctx.rule("R15.1", "crossing rule of the compiled source: half-open "
@@ -2763,6 +2850,10 @@ MUTANTS = [
      ("{:.16e} {:.16e}", "{:.15e} {:.15e}"), "R15.3"),
     ("split at every '=' (F15b returns)", "dclab/polygon_filter.py",
      ('li.split("=", 1)', 'li.split("=")'), "R15.3"),
+    ("save_all opens the path again for every filter (F15c returns)",
+     "dclab/polygon_filter.py",
+     ("polyobj = p.save(polyobj, ret_fobj=True)",
+      "polyobj = p.save(polyfile, ret_fobj=True)"), "R15.3"),
 ]
 
 TWINS = [
@@ -3206,4 +3297,18 @@ TWINS = [
        '    def _init_register(self, unique_id):\n'
        '        """Set the unique id, check the data, and register the '
        'instance"""\n')]),
+    ("save_all opens one handle itself and passes it to every save",
+     "dclab/polygon_filter.py",
+     [("        polyobj = polyfile\n        for p in PolygonFilter.instances:\n",
+       "        polyobj = polyfile if isinstance(polyfile, io.IOBase) \\\n"
+       "            else pathlib.Path(polyfile).open(\"a\")\n"
+       "        for p in PolygonFilter.instances:\n"),
+      ("            polyobj = p.save(polyobj, ret_fobj=True)\n",
+       "            p.save(polyobj, ret_fobj=True)\n")]),
+    ("save_all lets save() close after every filter", "dclab/polygon_filter.py",
+     [("            polyobj = p.save(polyobj, ret_fobj=True)\n",
+       "            p.save(polyfile)\n"),
+      ("        polyobj = polyfile\n", ""),
+      ("        # close the object after we are done saving all filters\n"
+       "        polyobj.close()\n", "")]),
 ]
